@@ -115,7 +115,11 @@ def _tree(val: Optional[str]):
     k = Node("k", id="n8", content="K")
     k.nsmap = c4.nsmap
     k.prefix = "q"
-    for p, c in ((r, c1), (r, c2), (c2, g), (r, c3), (c3, h), (r, c4), (c4, k), (r, e)):
+    c5 = Node("c5", id="n9")        # a declared prefix whose name merely starts with the letters x-m-l
+    c5.nsmap = {"p": "urn:u", "xmld": "urn:d"}
+    c5.prefix = "xmld"
+    c5.add_extras("xmld:k", "v")
+    for p, c in ((r, c1), (r, c2), (c2, g), (r, c3), (c3, h), (r, c4), (c4, k), (r, c5), (r, e)):
         c.parent = p
         p.children.append(c)
     if FLD == 0:
